@@ -1205,6 +1205,143 @@ def gen_desugar(r):
     return _case("desugar/inline-abbrev", {"m.emb": _main(lines)})
 
 
+# ------------------------------------------------------------------ cross-module message groups (round 4)
+# Source sets of 2-4 modules that import each other, with objects (enum values, constant `let`
+# fields) referring to each other ACROSS the module boundary: dependency cycles of length 2-5 whose
+# members are spread unevenly over files of different length, plus the other multi-message groups
+# (import cycle, duplicate definition in an imported module, missing name in another module).
+# Every member has its own name, its own indentation of `=` and every file its own number of leading
+# lines, so a message that names the wrong file lands outside that file or on text without the name.
+XMOD_NAMESETS = [["m.emb", "n.emb"], ["n.emb", "m.emb"], ["b.emb", "a.emb", "c.emb"],
+                 ["p.emb", "q.emb", "a.emb", "z.emb"]]
+XMOD_LETTERS = "abcde"
+
+
+def _xmod_distribution(dist, n_members, n_mods):
+    if dist == "alternate":
+        return [i % n_mods for i in range(n_members)]
+    if dist == "one-in-main":          # main module holds one member, the last module the rest
+        return [0] + [n_mods - 1 - (i % max(1, n_mods - 1)) for i in range(n_members - 1)]
+    if dist == "one-abroad":           # every member in the main module but one
+        return [0] * (n_members - 1) + [n_mods - 1]
+    raise ValueError(dist)
+
+
+def xmod_build(kind, names, where, flavours, pads, gaps, cycle=True, extra=None, all_imports=True):
+    """names[0] is the main module; member i (in module where[i], an enum value or a constant
+    `let` field according to flavours[i]) refers to member i+1 (the last one to member 0 iff
+    `cycle`); pads[k] = leading comment lines of module k; gaps[i] = spaces before `=`."""
+    n = len(where)
+    alias = ["mod%d" % k for k in range(len(names))]
+
+    def ref(frm, j):
+        letter = XMOD_LETTERS[j]
+        own = ("En%s.VAL_%s" % (letter.upper(), letter.upper()) if flavours[j] == "enum"
+               else "St%s.fld_%s" % (letter.upper(), letter))
+        return own if where[j] == frm else "%s.%s" % (alias[where[j]], own)
+    files = {}
+    for k, nm in enumerate(names):
+        needed = sorted({where[(i + 1) % n] for i in range(n) if where[i] == k and (cycle or i + 1 < n)} - {k})
+        imports = [j for j in range(len(names)) if j != k] if all_imports else needed
+        lines = ["# module %d of %d, line %d" % (k, len(names), x) for x in range(pads[k])]
+        lines += ['import "%s" as %s' % (names[j], alias[j]) for j in imports]
+        lines.append('[$default byte_order: "LittleEndian"]')
+        for i in range(n):
+            if where[i] != k:
+                continue
+            letter = XMOD_LETTERS[i]
+            last = (i + 1 == n) and not cycle
+            value = "%d" % (i + 1) if last else "%s + 1" % ref(k, (i + 1) % n)
+            lines += [""] * (i % 3)
+            if flavours[i] == "enum":
+                lines += ["enum En%s:" % letter.upper(), "  -- member %d" % i,
+                          "  VAL_%s%s= %s" % (letter.upper(), " " * gaps[i], value)]
+            else:
+                lines += ["struct St%s:" % letter.upper(), "  0 [+1]  UInt  x%d" % i,
+                          "  let fld_%s%s= %s" % (letter, " " * gaps[i], value)]
+        for at, more in (extra or {}).items():
+            if at == k:
+                lines += more
+        files[nm] = "\n".join(lines) + "\n"
+    return _case("xmod/" + kind, files, main=names[0])
+
+
+def _xmod_flavours(style, n):
+    return [{"enum": "enum", "let": "let"}.get(style) or ("enum" if (i + (style == "mixed2")) % 2 else "let")
+            for i in range(n)]
+
+
+def xmod_boundary_cases():
+    """Enumerated (every run contains them): all name sets x cycle lengths 2-5 x distributions."""
+    out = []
+    idx = 0
+    for names in XMOD_NAMESETS:
+        for n in (2, 3, 4, 5):
+            for dist in ("alternate", "one-in-main", "one-abroad"):
+                style = ["enum", "let", "mixed", "mixed2"][idx % 4]
+                where = _xmod_distribution(dist, n, len(names))
+                up = idx % 2 == 0
+                pads = [(3 * k if up else 3 * (len(names) - 1 - k)) + (idx % 3) for k in range(len(names))]
+                gaps = [1 + (7 * i + idx) % 11 for i in range(n)]
+                out.append(xmod_build("cycle-%d/%s/%s" % (n, dist, style), names, where,
+                                      _xmod_flavours(style, n), pads, gaps, all_imports=idx % 5 != 4))
+                idx += 1
+    two = XMOD_NAMESETS[0]
+    # two independent cycles in one source set: enum cycle + let cycle (members a,b / c,d)
+    for names in XMOD_NAMESETS[:3]:
+        last = len(names) - 1
+        c = xmod_build("two-cycles", names, [0, last], ["enum", "enum"], [0, 6, 2, 9][:len(names)], [1, 9],
+                       extra={0: ["struct Sx:", "  let one  = %s.Sy.two + 1" % ("mod%d" % last)],
+                              last: ["", "", "struct Sy:", "  let two      = mod0.Sx.one + 1"]})
+        out.append(c)
+    # other groups whose messages live in more than one file / in an imported file only
+    out.append(xmod_build("import-cycle-only", XMOD_NAMESETS[3], [0, 1], ["enum", "enum"], [0, 2, 4, 7], [1, 1], cycle=False))
+    out.append(xmod_build("chain-ok", two, [0, 1, 0], ["enum", "enum", "enum"], [0, 5], [1, 4, 2], cycle=False, all_imports=False))
+    out.append(xmod_build("duplicate-abroad", two, [0, 1], ["enum", "enum"], [0, 7], [1, 3], cycle=False, all_imports=False,
+                          extra={1: ["", "enum EnB:", "  VAL_Q = 3", "struct Dup:", "  0 [+1]  UInt  q", "  1 [+1]  UInt  q"]}))
+    out.append(xmod_build("missing-abroad", two, [0, 1], ["enum", "enum"], [5, 0], [1, 3], cycle=False, all_imports=False,
+                          extra={0: ["struct Miss:", "  let nope = mod1.EnB.VAL_NOPE + 1", "  let nope2 = mod1.Nope.VAL_B"],
+                                 1: ["struct Miss2:", "  let nope3 = EnZ.VAL_B"]}))
+    out.append(xmod_build("self-and-cross", two, [0, 1, 1], ["let", "let", "enum"], [1, 8], [2, 5, 3],
+                          extra={1: ["struct Selfish:", "  let me = Selfish.me + 1"]}))
+    return out
+
+
+def gen_xmod(r):
+    names = list(r.choice(XMOD_NAMESETS))
+    if r.random() < 0.5:
+        r.shuffle(names)
+    n = r.choice([2, 2, 3, 3, 4, 5])
+    mode = r.choice(["cycle", "cycle", "cycle", "cycle", "chain", "two", "noise"])
+    where = [r.randrange(len(names)) for _ in range(n)]
+    if len(set(where)) == 1:                     # make it cross a module boundary
+        where[r.randrange(n)] = (where[0] + 1) % len(names)
+    style = r.choice(["enum", "let", "mixed", "mixed2", "random"])
+    flav = [r.choice(["enum", "let"]) for _ in range(n)] if style == "random" else _xmod_flavours(style, n)
+    pads = [r.choice([0, 0, 1, 2, 5, 9, 17]) for _ in names]
+    gaps = [r.randrange(1, 14) for _ in range(n)]
+    extra = {}
+    if mode == "two":
+        a, b = r.sample(range(len(names)), 2)
+        extra = {a: ["struct Sx:", "  let one%s= mod%d.Sy.two + 1" % (" " * r.randrange(1, 9), b)],
+                 b: [""] * r.randrange(3) + ["struct Sy:", "  let two%s= mod%d.Sx.one + 1" % (" " * r.randrange(1, 9), a)]}
+    elif mode == "noise":
+        k = r.randrange(len(names))
+        extra = {k: r.choice([
+            ["struct Dup:", "  0 [+1]  UInt  q", "  1 [+1]  UInt  q"],
+            ["enum EnA:", "  VAL_Q = 3"],
+            ["struct Miss:", "  let nope = mod%d.EnA.VAL_NOPE + 1" % ((k + 1) % len(names))],
+            ["struct Miss:", "  let nope = mod9.EnA.VAL_A + 1"],
+            ["struct Selfish:", "  let me = Selfish.me + 1"],
+            ["struct Tt:", "  0 [+1]  mod%d.StA  t" % ((k + 1) % len(names)), "  let u = t.fld_a + t.nope"],
+            ["enum Bad:", "  VAL_Z = true"],
+            ["struct Bad:", "  0 [+1]  UInt  x", "    bad"],
+        ])}
+    return xmod_build("%s-%d/%s" % (mode, n, style), names, where, flav, pads, gaps,
+                      cycle=mode != "chain" and not (mode == "noise" and r.random() < 0.5),
+                      extra=extra, all_imports=r.random() < 0.7)
+
+
 GENERATORS = [("chain", gen_chain, 1), ("bytes", gen_bytes, 5), ("soup", gen_soup, 7), ("grammar", gen_grammar, 19),
               ("sem", gen_sem, 32), ("nest", gen_nest, 3), ("mutate", gen_mutate, 16), ("imports", gen_imports, 6),
               ("desugar", gen_desugar, 12)]
